@@ -165,7 +165,7 @@ CLAIMS.update({
                 'flags are [global] + per-target in both _get_flags. A flag '
                 'outside the grammar is rejected by every gcc/clang, so this '
                 'is a necessary condition for all option values at once.'
-                ' Added: OPTION-IDENTITY (Option.matches is full equality and no option class weakens it; environment flag variables are split with shell.split; default include dirs are computed with CPATH neutralised). Round 8: per-target flags are not filtered against the global ones; the default-include-directory probe runs with the environment flags; the -l<name> pattern is anchored as a whole (constant-folded for a sample list).',
+                ' Added: OPTION-IDENTITY (Option.matches is full equality and no option class weakens it; environment flag variables are split with shell.split; default include dirs are computed with CPATH neutralised). Round 8: per-target flags are not filtered against the global ones; the default-include-directory probe runs with the environment flags; the -l<name> pattern is anchored as a whole (constant-folded for a sample list). Environment flags come before the project\'s global options in the shared _get_flags (the order the compdb emitter uses).',
         'note': _TB + 'Not decided: acceptance by the compiler actually '
                 'detected, effect on the program, msvc/jvm translations. F8 '
                 '(-Osize) repaired by a fix: commit.',
@@ -217,7 +217,7 @@ CLAIMS.update({
                 'three, depfile argument under the gcc flavor in all three. '
                 'It decides agreement of the code shape, not equality of the '
                 'evaluated command lines.'
-                ' Added: CompDB keeps every entry (list, unconditional append, dumped whole); ENV-EXPORT in all three command emitters; dependency-root comparison uses guard-clean roots; PASS-THROUGH: the make multi-target helper and the ninja command_build helper forward deps/order-only/variables they receive on every path (must-flow); DEPFILE-WIRING (shared with C07): Make includes the depfile of every object, Ninja names it on the rule. compdb path text comes from string(), not the raw suffix.',
+                ' Added: CompDB keeps every entry (list, unconditional append, dumped whole); ENV-EXPORT in all three command emitters; dependency-root comparison uses guard-clean roots; PASS-THROUGH: the make multi-target helper and the ninja command_build helper forward deps/order-only/variables they receive on every path (must-flow); DEPFILE-WIRING (shared with C07): Make includes the depfile of every object, Ninja names it on the rule. compdb path text comes from string(), not the raw suffix. FLAG-MERGE (shared with C16) ties the make/ninja flag order to the compdb one.',
         'note': _TB + 'Not decided: equality of evaluated command lines, '
                 'working directories and environments.',
         'technique': 'cross-checking sibling implementations registered in '
@@ -333,7 +333,7 @@ CLAIMS.update({
                 'executed script is a bootstrap path; (CACHE-REPLAY) files '
                 'found through find_files incl. extra ones are registered '
                 'on the cached path too. Archive contents are not decided.'
-                ' Added: every builtin accepting dist= forwards it to _find/find_from_filter/static_file. PATH-COMPONENTWISE (no substring test on a suffix) is claimed here too.',
+                ' Added: every builtin accepting dist= forwards it to _find/find_from_filter/static_file. PATH-COMPONENTWISE (no substring test on a suffix) is claimed here too. add_source is conditional only on the root (and the dist flag).',
         'note': _TB + 'Not decided: what doppel puts into the archive; that '
                 'the unpacked archive configures equivalently.',
         'technique': 'who-may-call + guard check, decorator-driven '
